@@ -135,7 +135,23 @@ func fatal(f string, a ...any) {
 }
 
 func goList(root, goBin string) []*listPkg {
-	cmd := exec.Command(goBin, "list", "-export", "-deps", "-json=ImportPath,Dir,Name,GoFiles,Export,Standard,Module,Error", "./...")
+	// The simulator and harness packages (zzverif/...) are written against
+	// the instrumented code and do not compile before the rewrite: list the
+	// repository's own packages only.
+	lc := exec.Command(goBin, "list", "./...")
+	lc.Dir = root
+	lc.Stderr = os.Stderr
+	lo, err := lc.Output()
+	if err != nil {
+		fatal("go list failed: %v", err)
+	}
+	args := []string{"list", "-export", "-deps", "-json=ImportPath,Dir,Name,GoFiles,Export,Standard,Module,Error"}
+	for _, p := range strings.Fields(string(lo)) {
+		if !strings.Contains(p, "/zzverif") {
+			args = append(args, p)
+		}
+	}
+	cmd := exec.Command(goBin, args...)
 	cmd.Dir = root
 	cmd.Stderr = os.Stderr
 	out, err := cmd.Output()
